@@ -16,7 +16,7 @@ def main(tier: str) -> int:
     M = "h_C13"
     T = 300 if tier == "quick" else 2400
     names = ["merge_ref3", "sources_unmodified3", "result_independent_of_later_source_edits", "getters_never_default",
-             "shorthand_group", "builder_isolation"]
+             "shorthand_group", "builder_isolation", "config_file_order_ignores_hash_order"]
     if tier != "quick":
         names.append("merge_ref2k")
     conds = [Cond(M, f, T, 60) for f in names if f != "shorthand_group"]
